@@ -89,6 +89,10 @@ pub struct Obs {
     pub budget_exhausted: bool,
     pub harness_errors: Vec<String>,
     #[serde(skip)]
+    progress_path: Option<PathBuf>,
+    #[serde(skip)]
+    cur_pos: u64,
+    #[serde(skip)]
     cur_kind: String,
     #[serde(skip)]
     cur_index: u64,
@@ -103,6 +107,13 @@ impl Obs {
     pub fn begin(&mut self, kind: &str, index: u64) {
         self.cur_kind = kind.to_string();
         self.cur_index = index;
+    }
+    /// Describes what the running case is doing (kept in the worker's progress file so that the parent
+    /// can name the input if the case never returns). `class` becomes part of the signature.
+    pub fn note(&mut self, class: &str, text: &str) {
+        if let Some(p) = &self.progress_path {
+            let _ = std::fs::write(p, format!("{}\n{}\n{}", self.cur_pos, class, text));
+        }
     }
     /// one execution of the real code observed by an oracle
     pub fn eval(&mut self) {
@@ -242,6 +253,12 @@ pub trait Property: Sync {
     fn case_timeout_s(&self, tier: Tier) -> u64 {
         tier.pick(60, 300)
     }
+    /// CPU-time budget of one case (seconds). A case that burns more CPU than this in its own worker
+    /// process is reported as a hang (a verdict on consumed work, independent of machine load);
+    /// None = no hang verdicts for this property.
+    fn cpu_budget_s(&self, _tier: Tier) -> Option<u64> {
+        None
+    }
     /// extra keys for the evidence coverage object
     fn extra_evidence(&self, _agg: &Obs) -> Value {
         json!({})
@@ -250,6 +267,17 @@ pub trait Property: Sync {
 
 // ---------------------------------------------------------------------------------------
 // worker
+
+pub fn process_cpu_ms() -> u64 {
+    unsafe {
+        let mut ts: libc::timespec = std::mem::zeroed();
+        if libc::clock_gettime(libc::CLOCK_PROCESS_CPUTIME_ID, &mut ts) == 0 {
+            ts.tv_sec as u64 * 1000 + ts.tv_nsec as u64 / 1_000_000
+        } else {
+            0
+        }
+    }
+}
 
 fn now_s() -> u64 {
     SystemTime::now().duration_since(UNIX_EPOCH).unwrap().as_secs()
@@ -309,18 +337,32 @@ pub fn run_worker(prop: &dyn Property, a: WorkerArgs) -> i32 {
     let progress_path = a.out.with_extension("cur");
     let case_timeout = prop.case_timeout_s(a.tier);
 
-    // watchdog thread: exits the process if one case exceeds its budget
+    // watchdog thread: exits the process if one case exceeds its wall-clock budget (inconclusive)
+    // or its CPU budget (hang verdict, for properties that ask for it)
     let cur_started = std::sync::Arc::new(std::sync::atomic::AtomicU64::new(0));
+    let cur_cpu0 = std::sync::Arc::new(std::sync::atomic::AtomicU64::new(0));
+    let cpu_budget = prop.cpu_budget_s(a.tier);
     {
         let cur_started = cur_started.clone();
+        let cur_cpu0 = cur_cpu0.clone();
         std::thread::spawn(move || loop {
-            std::thread::sleep(Duration::from_millis(500));
+            std::thread::sleep(Duration::from_millis(250));
             let st = cur_started.load(std::sync::atomic::Ordering::Relaxed);
-            if st != 0 && now_s() > st + case_timeout {
+            if st == 0 {
+                continue;
+            }
+            if let Some(b) = cpu_budget {
+                let used = process_cpu_ms().saturating_sub(cur_cpu0.load(std::sync::atomic::Ordering::Relaxed));
+                if used > b * 1000 {
+                    unsafe { libc::_exit(5) };
+                }
+            }
+            if now_s() > st + case_timeout {
                 unsafe { libc::_exit(4) };
             }
         });
     }
+    wf.obs.progress_path = Some(progress_path.clone());
 
     let mut last_flush = Instant::now();
     let mut pos = a.start;
@@ -339,6 +381,8 @@ pub fn run_worker(prop: &dyn Property, a: WorkerArgs) -> i32 {
         let seed = derive_seed(a.seed, prop.id(), kind, index);
         let case = Case { prop: prop.id(), kind, index, seed, base_seed: a.seed, tier: a.tier };
         let _ = std::fs::write(&progress_path, pos.to_string());
+        wf.obs.cur_pos = pos;
+        cur_cpu0.store(process_cpu_ms(), std::sync::atomic::Ordering::Relaxed);
         cur_started.store(now_s(), std::sync::atomic::Ordering::Relaxed);
         wf.obs.begin(kind, index);
         let r = panicx::guard(|| prop.run_case(&case, &mut wf.obs));
@@ -500,9 +544,11 @@ pub fn run_check(prop: &dyn Property, tier: Tier, seed: u64) -> i32 {
             };
             let code = status.code();
             let wf = absorb(sh);
-            let cur: Option<u64> = std::fs::read_to_string(sh.out.with_extension("cur"))
-                .ok()
-                .and_then(|s| s.trim().parse().ok());
+            let cur_text = std::fs::read_to_string(sh.out.with_extension("cur")).unwrap_or_default();
+            let mut cur_lines = cur_text.lines();
+            let cur: Option<u64> = cur_lines.next().and_then(|s| s.trim().parse().ok());
+            let cur_class = cur_lines.next().unwrap_or("").to_string();
+            let cur_note = cur_lines.collect::<Vec<_>>().join(" ");
             let _ = std::fs::remove_file(sh.out.with_extension("cur"));
             match (code, wf) {
                 (Some(0), Some(wf)) if wf.finished => {
@@ -517,8 +563,23 @@ pub fn run_check(prop: &dyn Property, tier: Tier, seed: u64) -> i32 {
                 (code, wf) => {
                     // died: watchdog (4), signal, abort … keep what was flushed, skip the case
                     // that was running, continue after the last flushed position.
+                    if code == Some(5) {
+                        // the case burnt its CPU budget without returning: a hang, decided on consumed work
+                        if let Some(c) = cur {
+                            let cases = case_list(&workloads);
+                            let (wi, index) = cases.get(c as usize).copied().unwrap_or((0, 0));
+                            let kind = workloads.get(wi).map(|w| w.0.clone()).unwrap_or_default();
+                            sh.acc.begin(&kind, index);
+                            sh.acc.violation(
+                                &format!("hang:{}", if cur_class.is_empty() { kind.clone() } else { cur_class.clone() }),
+                                format!("case {}#{} consumed more than {} s of CPU without returning ({})", kind, index, prop.cpu_budget_s(tier).unwrap_or(0), cur_note),
+                                json!({"note": cur_note, "cpu_budget_s": prop.cpu_budget_s(tier)}),
+                            );
+                        }
+                    }
                     let why = match code {
                         Some(4) => "case-watchdog".to_string(),
+                        Some(5) => "cpu-budget(hang verdict recorded)".to_string(),
                         Some(c) => format!("worker-exit-{}", c),
                         None => "worker-killed-by-signal".to_string(),
                     };
@@ -527,7 +588,11 @@ pub fn run_check(prop: &dyn Property, tier: Tier, seed: u64) -> i32 {
                         resume = wf.done_upto.max(resume);
                         sh.acc.merge(wf.obs);
                     }
-                    sh.acc.inconclusive(&why);
+                    if code != Some(5) {
+                        sh.acc.inconclusive(&why);
+                    } else {
+                        sh.acc.count("hang_verdicts");
+                    }
                     if let Some(c) = cur {
                         sh.skip.push(c);
                         sh.acc.count(&format!("skipped_case_after_{}", why));
